@@ -1251,14 +1251,108 @@ func (h *c15H) edges() {
 	}
 }
 
+// scale: a long stale prefix.  m = mult x batch_size commands are cached and only THEN marked as proposed
+// (a long-time follower that becomes leader), with k fresh commands behind them; Gets until the fresh
+// ones are drained, one more Get that must block, further Adds that must complete a batch again.
+// One client with increasing sequence numbers, or the same spread over many clients.
+func (h *c15H) scale() {
+	v := h.v
+	stream := v.Stream("scale", "step_mismatches", 24)
+	for bs := uint32(1); bs <= 3; bs++ {
+		for _, mult := range []int{63, 64, 65, 127, 128, 129, 200, 1000} {
+			for variant := 0; variant < 2; variant++ {
+				for _, k := range []int{int(bs) - 1, int(bs), 3 * int(bs)} {
+					m := mult * int(bs)
+					nClients := 1
+					if variant == 1 {
+						nClients = 37
+					}
+					cc := NewCommandCache(bs)
+					spec := &c15Spec{bs: bs, marked: map[uint32]uint64{}}
+					next := map[uint32]uint64{}
+					tag := uint64(0)
+					add := func(c uint32) c15Cmd {
+						next[c]++
+						tag++
+						return c15Cmd{C: c, S: next[c], T: tag}
+					}
+					for i := 0; i < m; i++ {
+						cmd := add(uint32(1 + i%nClients))
+						cc.Add(c15ToCommand(cmd))
+						spec.pend = append(spec.pend, cmd)
+					}
+					var mark []c15Cmd
+					for c := 1; c <= nClients; c++ {
+						if next[uint32(c)] > 0 {
+							mark = append(mark, c15Cmd{C: uint32(c), S: next[uint32(c)]})
+						}
+					}
+					fresh := func(j int) c15Cmd { // behind the prefix: the same clients going on, and new ones
+						if j%2 == 0 {
+							return add(uint32(1 + j%nClients))
+						}
+						return add(uint32(1000 + j))
+					}
+					for j := 0; j < k; j++ {
+						cmd := fresh(j)
+						cc.Add(c15ToCommand(cmd))
+						spec.pend = append(spec.pend, cmd)
+					}
+					var names []string
+					names = append(names, fmt.Sprintf("%d Adds over %d client(s), then %d more", m, nClients, k))
+					before := c15Snap(cc)
+					batches, blocked, nfail := 0, 0, 0
+					step := func(op c15Op) c15Res {
+						res := c15Exec(cc, op)
+						after := c15Snap(cc)
+						names = append(names, c15OpString(op))
+						fails := spec.apply(op, res, after)
+						nfail += len(fails)
+						h.report(fails, map[string]any{"batch_size": bs, "stale_prefix": m, "clients": nClients, "fresh_behind": k, "ops": names, "result": res,
+							"cached_after": len(after.Cache), "token_after": after.Ready})
+						if res.Kind == c15Batch {
+							batches++
+						} else if res.Kind == c15Blocked {
+							blocked++
+						}
+						big := len(before.Cache) > 400
+						if res.Panic == "" && (!big || op.Kind == c15Get || v.Thorough()) {
+							v.Case(stream, fmt.Sprintf("(%s,%s,%s,%s)", c15GState(before), c15GOp(op, res), c15GRes(res), c15GState(after)),
+								map[string]any{"batch_size": bs, "stale_prefix": m, "clients": nClients, "fresh_behind": k, "ops": names, "result": res})
+							v.Count("scale_kernel_cases")
+						}
+						before = after
+						return res
+					}
+					step(c15Op{Kind: c15Proposed, Cmds: mark}) // marked after they were cached
+					for g := 0; g <= k/int(bs); g++ {
+						step(c15Op{Kind: c15Get}) // k/bs batches, then one Get that must block
+					}
+					for r := k % int(bs); r < int(bs); r++ { // later Adds complete a batch again
+						step(c15Op{Kind: c15Add, Cmds: []c15Cmd{fresh(k + r)}})
+					}
+					step(c15Op{Kind: c15Get})
+					step(c15Op{Kind: c15Get})
+					v.Seen(fmt.Sprintf("scale bs=%d m=%d clients=%d k=%d", bs, m, nClients, k), true,
+						map[string]any{"batch_size": bs, "stale_prefix": m, "clients": nClients, "fresh_behind": k, "batches": batches, "blocked_gets": blocked})
+					v.Count("scale_scenarios")
+					v.CountN("scale_batches_returned", batches)
+					v.CountN("scale_gets_blocked", blocked)
+				}
+			}
+		}
+	}
+}
+
 func TestVerifC15(t *testing.T) {
 	v := verifNew("C15")
 	h := &c15H{v: v}
 	synctest.Test(t, func(t *testing.T) {
 		h.edges()
+		h.scale()
 		h.exhaustive(v.Pick(6, 7), v.Pick(3, 4), v.Pick(220, 600), v.Pick(4, 5))
 		h.sequencesExhaustive(v.Pick(3, 4))
 		h.sequencesRandom(v.Pick(1200, 12000))
 	})
-	v.Close("real CommandCache in a synctest bubble (blocked Get = durably blocked goroutine); step: every transition out of every distinct state reachable by <= D ops over Add/Proposed of 2 clients x seq 1..3 and Get, batch sizes 1..3 (D=6 quick, 7 thorough), oracle on all, kernel on all of depth <= 3/4 plus a hash sample; out of every such state also: Get with an already-cancelled context while the token is present (3 tries, either select branch), 1-2 Gets ALREADY WAITING when an Add arrives, live or with cancel() racing before/after the Add; seqx/seqr/edge: whole sequences on one object (seqr: client ids agreeing in their low 8/16/24/31 bits, sequence numbers agreeing in their low 32 bits, bursts, repeated Gets, waiting Gets, containsDuplicate; every returned batch gets a junk command appended and is re-read at the end of the sequence); non-trivial = non-empty cache with marks or a Get / a run with both a returned batch and a blocked Get")
+	v.Close("real CommandCache in a synctest bubble (blocked Get = durably blocked goroutine); step: every transition out of every distinct state reachable by <= D ops over Add/Proposed of 2 clients x seq 1..3 and Get, batch sizes 1..3 (D=6 quick, 7 thorough), oracle on all, kernel on all of depth <= 3/4 plus a hash sample; out of every such state also: Get with an already-cancelled context while the token is present (3 tries, either select branch), 1-2 Gets ALREADY WAITING when an Add arrives, live or with cancel() racing before/after the Add; scale: stale prefixes of {63,64,65,127,128,129,200,1000} x batch size commands marked AFTER they were cached (1 / 37 clients) with batch_size-1, batch_size, 3 x batch_size fresh commands behind them, drained, one more Get, further Adds; seqx/seqr/edge: whole sequences on one object (seqr: client ids agreeing in their low 8/16/24/31 bits, sequence numbers agreeing in their low 32 bits, bursts, repeated Gets, waiting Gets, containsDuplicate; every returned batch gets a junk command appended and is re-read at the end of the sequence); non-trivial = non-empty cache with marks or a Get / a run with both a returned batch and a blocked Get")
 }
